@@ -1,0 +1,326 @@
+//go:build verif
+
+package storage
+
+import (
+	"bytes"
+	"fmt"
+	"io"
+)
+
+// This file only exposes internal state to external runtime monitors. It
+// contains no checking logic and is compiled only with -tags verif.
+
+// VerifPage is a logical dump of one tree node.
+type VerifPage struct {
+	Offset   uint64
+	Leaf     bool
+	LSN      uint64
+	Dirty    bool
+	Cached   bool
+	Keys     []uint32
+	Deleted  []bool   // leaf only
+	Vals     [][]byte // leaf only
+	ValSizes []uint32 // leaf only: the valueSize field of each cell
+	Children []uint64 // internal only: child of each cell
+	Right    uint64   // internal only
+	HasLSib  bool
+	HasRSib  bool
+	LSib     uint64
+	RSib     uint64
+	Stored   int // number of cell objects held (>= len(Keys))
+}
+
+func verifDump(n *btreeNode) *VerifPage {
+	p := &VerifPage{
+		Offset:  n.fileOffset,
+		Leaf:    n.isLeaf,
+		LSN:     n.lastLSN,
+		Dirty:   n.dirty,
+		HasLSib: n.hasLSib,
+		HasRSib: n.hasRSib,
+		LSib:    n.lSibFileOffset,
+		RSib:    n.rSibFileOffset,
+		Right:   n.rightOffset,
+	}
+	if n.isLeaf {
+		p.Stored = len(n.leafCells)
+		for _, o := range n.offsets {
+			c := n.leafCells[o]
+			p.Keys = append(p.Keys, c.key)
+			p.Deleted = append(p.Deleted, c.deleted)
+			p.Vals = append(p.Vals, append([]byte(nil), c.valueBytes...))
+			p.ValSizes = append(p.ValSizes, c.valueSize)
+		}
+	} else {
+		p.Stored = len(n.internalCells)
+		for _, o := range n.offsets {
+			c := n.internalCells[o]
+			p.Keys = append(p.Keys, c.key)
+			p.Children = append(p.Children, c.fileOffset)
+		}
+	}
+	return p
+}
+
+func verifDecode(buf []byte) (*btreeNode, error) {
+	n := &btreeNode{}
+	switch buf[0] {
+	case InternalNode:
+	case LeafNode:
+		n.isLeaf = true
+	default:
+		return nil, fmt.Errorf("invalid node type value %d", buf[0])
+	}
+	if err := n.decode(bytes.NewBuffer(buf)); err != nil {
+		return nil, err
+	}
+	return n, nil
+}
+
+// VerifPeek dumps the page at off as the store currently sees it: the cached
+// node when there is one, else the page decoded from the file. It neither
+// changes cache recency nor inserts into the cache. The caller must make sure
+// no other goroutine uses the store.
+func VerifPeek(rs *RelationService, off uint64) (*VerifPage, error) {
+	if e, ok := rs.fs.cache.cache[off]; ok {
+		p := verifDump(e.Value.(*cacheEntry).val)
+		p.Cached = true
+		return p, nil
+	}
+	return VerifPeekFile(rs, off)
+}
+
+// VerifPeekFile dumps the page at off as stored in the data file.
+func VerifPeekFile(rs *RelationService, off uint64) (*VerifPage, error) {
+	buf := make([]byte, pageSize)
+	if _, err := rs.fs.file.ReadAt(buf, int64(off)); err != nil && err != io.EOF {
+		return nil, err
+	}
+	n, err := verifDecode(buf)
+	if err != nil {
+		return nil, err
+	}
+	return verifDump(n), nil
+}
+
+// VerifHeader returns the store's in-memory header fields.
+func VerifHeader(rs *RelationService) (lastKey uint32, pageTableRoot, nextFreeOffset, nextLSN uint64) {
+	return rs.fs.lastKey, rs.fs.pageTableRoot, rs.fs.nextFreeOffset, rs.fs._nextLSN
+}
+
+// VerifFlush runs the same page flush the background timer runs.
+func VerifFlush(rs *RelationService) error {
+	return rs.fs.flushPages()
+}
+
+// VerifCacheKeys returns the resident page offsets, most recently used first,
+// and the number of dirty ones.
+func VerifCacheKeys(rs *RelationService) (keys []uint64, dirty int) {
+	return verifLRUKeys(rs.fs.cache)
+}
+
+func verifLRUKeys(c *LRUCache) (keys []uint64, dirty int) {
+	for e := c.list.Front(); e != nil; e = e.Next() {
+		ce := e.Value.(*cacheEntry)
+		keys = append(keys, ce.key.(uint64))
+		if ce.val.isDirty() {
+			dirty++
+		}
+	}
+	return keys, dirty
+}
+
+// VerifFindKey runs the engine's point lookup for key from the tree rooted at
+// root. found is false for absent and for tombstoned keys.
+func VerifFindKey(rs *RelationService, root uint64, key uint32) (found bool, val []byte, err error) {
+	bt := &BTree{store: rs.fs, rootOffset: root}
+	cell, err := bt.findCell(key)
+	if err != nil || cell == nil {
+		return false, nil, err
+	}
+	return true, cell.valueBytes, nil
+}
+
+// VerifScanLeft returns the live keys of the tree rooted at root in the order
+// the engine's right-to-left scan visits them.
+func VerifScanLeft(rs *RelationService, root uint64) ([]uint32, error) {
+	bt := &BTree{store: rs.fs, rootOffset: root}
+	var keys []uint32
+	err := bt.scanLeft(func(c *leafCell) (ScanAction, error) {
+		keys = append(keys, c.key)
+		return KeepScanning, nil
+	})
+	return keys, err
+}
+
+// VerifNode wraps a tree node built with the engine's own primitives.
+type VerifNode struct{ n *btreeNode }
+
+func VerifNewNode(leaf bool, off uint64) *VerifNode {
+	return &VerifNode{n: &btreeNode{isLeaf: leaf, fileOffset: off}}
+}
+
+func (v *VerifNode) Dump() *VerifPage { return verifDump(v.n) }
+func (v *VerifNode) Len() int         { return len(v.n.offsets) }
+func (v *VerifNode) IsFull() bool     { return v.n.isFull() }
+
+// InsertLeaf inserts at the key's sorted position, as insertLeaf does.
+func (v *VerifNode) InsertLeaf(key uint32, val []byte) error {
+	off, found := v.n.findCellOffsetByKey(key)
+	if found {
+		return errKeyAlreadyExists
+	}
+	return v.n.insertLeafCell(uint32(off), key, val)
+}
+
+func (v *VerifNode) AppendInternal(key uint32, child uint64) error {
+	return v.n.appendInternalCell(key, child)
+}
+
+func (v *VerifNode) InsertInternal(key uint32, child uint64) error {
+	off, found := v.n.findCellOffsetByKey(key)
+	if found {
+		return errKeyAlreadyExists
+	}
+	if off == len(v.n.offsets) {
+		return v.n.appendInternalCell(key, child)
+	}
+	return v.n.insertInternalCell(uint32(off), key, child)
+}
+
+func (v *VerifNode) UpdateCell(key uint32, val []byte) error { return v.n.updateCell(key, val) }
+
+// SetDeleted tombstones the cell holding key the way MarkDeleted does.
+func (v *VerifNode) SetDeleted(key uint32) bool {
+	off, found := v.n.findCellOffsetByKey(key)
+	if !found {
+		return false
+	}
+	v.n.leafCells[v.n.offsets[off]].deleted = true
+	return true
+}
+
+func (v *VerifNode) MarkDirty(lsn uint64) { v.n.markDirty(lsn) }
+func (v *VerifNode) SetRight(off uint64)  { v.n.setRightMostKey(off) }
+
+func (v *VerifNode) SetSibs(hasL, hasR bool, l, r uint64) {
+	v.n.hasLSib, v.n.hasRSib, v.n.lSibFileOffset, v.n.rSibFileOffset = hasL, hasR, l, r
+}
+
+// Split splits v into a fresh node at newOff and returns it with the
+// separator key.
+func (v *VerifNode) Split(newOff uint64) (*VerifNode, uint32, error) {
+	nn := &btreeNode{isLeaf: v.n.isLeaf, fileOffset: newOff}
+	k, err := v.n.split(nn)
+	return &VerifNode{n: nn}, k, err
+}
+
+// Encode serialises the node; a panic in the encoder is returned as an error.
+func (v *VerifNode) Encode() (b []byte, err error) {
+	defer func() {
+		if r := recover(); r != nil {
+			err = fmt.Errorf("panic: %v", r)
+		}
+	}()
+	buf, err := v.n.encode()
+	if err != nil {
+		return nil, err
+	}
+	return buf.Bytes(), nil
+}
+
+// VerifDecodePage decodes one page image.
+func VerifDecodePage(b []byte) (p *VerifPage, err error) {
+	defer func() {
+		if r := recover(); r != nil {
+			err = fmt.Errorf("panic: %v", r)
+		}
+	}()
+	n, err := verifDecode(b)
+	if err != nil {
+		return nil, err
+	}
+	return verifDump(n), nil
+}
+
+// VerifStoreRoundTrip writes the node through a file store at path and reads
+// it back through a second, cold store.
+func VerifStoreRoundTrip(path string, v *VerifNode) (p *VerifPage, err error) {
+	defer func() {
+		if r := recover(); r != nil {
+			err = fmt.Errorf("panic: %v", r)
+		}
+	}()
+	fs, err := newFileStore(path, false)
+	if err != nil {
+		return nil, err
+	}
+	if err := fs.update(v.n); err != nil {
+		fs.file.Close()
+		return nil, err
+	}
+	fs.file.Close()
+	fs2, err := newFileStore(path, false)
+	if err != nil {
+		return nil, err
+	}
+	defer fs2.file.Close()
+	n, err := fs2.fetch(v.n.fileOffset)
+	if err != nil {
+		return nil, err
+	}
+	return verifDump(n), nil
+}
+
+// VerifLRU drives the real page cache with real nodes.
+type VerifLRU struct {
+	c *LRUCache
+}
+
+func VerifNewLRU(capacity int) *VerifLRU {
+	return &VerifLRU{c: NewLRU(capacity)}
+}
+
+// Set stores a fresh node identified by id under key.
+func (l *VerifLRU) Set(key uint64, id uint64, dirty bool) bool {
+	n := &btreeNode{isLeaf: true, fileOffset: key, lastLSN: id, dirty: dirty}
+	return l.c.set(key, n)
+}
+
+// Get returns the id of the node stored under key.
+func (l *VerifLRU) Get(key uint64) (id uint64, dirty bool, ok bool) {
+	n, ok := l.c.get(key)
+	if !ok {
+		return 0, false, false
+	}
+	return n.lastLSN, n.dirty, true
+}
+
+// SetDirty changes the dirty flag of the resident node under key without
+// touching recency (as btree code does through a node pointer it holds).
+func (l *VerifLRU) SetDirty(key uint64, dirty bool) bool {
+	e, ok := l.c.cache[key]
+	if !ok {
+		return false
+	}
+	n := e.Value.(*cacheEntry).val
+	if dirty {
+		n.markDirty(n.lastLSN)
+	} else {
+		n.markClean()
+	}
+	return true
+}
+
+// State returns resident keys (most recent first) with ids and dirty flags,
+// plus the sizes of the two internal structures.
+func (l *VerifLRU) State() (keys, ids []uint64, dirty []bool, mapLen, listLen int) {
+	for e := l.c.list.Front(); e != nil; e = e.Next() {
+		ce := e.Value.(*cacheEntry)
+		keys = append(keys, ce.key.(uint64))
+		ids = append(ids, ce.val.lastLSN)
+		dirty = append(dirty, ce.val.dirty)
+	}
+	return keys, ids, dirty, len(l.c.cache), l.c.list.Len()
+}
